@@ -809,6 +809,12 @@ func checkC15(p *Prog, r *Report) {
 	// ---- R15.12 the first message is delivered as it was received ----------------------------------------------
 	r.Rule("R15.12", "The first message of an accepted connection, which handleConn hands to the ufrag's packet connection through AddConn, is queued there without a copy: the buffer it was read into is allocated by that call and kept, pooled or reused by nothing else, so a later connection's first frame cannot overwrite it while it waits to be read (rule of C14 R14.10).", 1)
 	checkRetainedFirstPacket(p, r)
+	// ---- R15.13 a reply goes out on the connection of its peer ---------------------------------------------------
+	r.Rule("R15.13", "tcpPacketConn.WriteTo writes to exactly the TCP connection registered under the destination address: the connection is the table entry of rAddr.String() and nothing else (no fallback to 'the only connection'), so a reply never leaves on another client's connection.", 1)
+	checkTCPReplyGoesToItsPeer(p, r)
+	// ---- R15.14 lookup-or-create is atomic ----------------------------------------------------------------------
+	r.Rule("R15.14", "Where the per-ufrag table is looked up and an entry is created on a miss (the first packet of a connection, GetConnByUfrag), the mux mutex is held from the lookup to the creation without being released in between: two concurrent misses cannot both create, so no packet connection is overwritten in the table and orphaned with its TCP connections.", 2)
+	checkLookupCreateAtomic(p, r)
 }
 
 func rootIdent(e ast.Expr) *ast.Ident {
@@ -979,5 +985,150 @@ func checkAliveTimerDiscipline(p *Prog, r *Report) {
 	}
 	if n < 3 {
 		r.Fail("alive timer uses", "tcp_packet_conn.go", "fewer alive-timer sites than expected (rule instance lost)")
+	}
+}
+
+// checkTCPReplyGoesToItsPeer: tcpPacketConn.WriteTo writes to exactly the connection registered under the
+// destination address (C15 R15.13, shared with C07 R7.7).
+func checkTCPReplyGoesToItsPeer(p *Prog, r *Report) {
+	f := p.Fn("tcpPacketConn.WriteTo")
+	if !r.Anchor("tcpPacketConn.WriteTo", f != nil) {
+		return
+	}
+	addr := p.paramObj(f, 1)
+	writes := p.CallsTo(f, false, "ice.writeStreamingPacket")
+	if len(writes) == 0 {
+		r.Fail("tcpPacketConn.WriteTo: the framed write", p.Pos(f.Body.Pos()), "no writeStreamingPacket call: the packet is not sent framed")
+		return
+	}
+	for _, w := range writes {
+		bad := ""
+		// the value is the table entry of the destination address: directly, through locals, or as the result
+		// of a locked lookup closure
+		var isEntry func(g *Func, e ast.Expr, idx, depth int) (bool, string)
+		isEntry = func(g *Func, e ast.Expr, idx, depth int) (bool, string) {
+			if depth > 4 {
+				return false, "too deeply derived"
+			}
+			switch x := unparen(e).(type) {
+			case *ast.IndexExpr:
+				if idx == 0 && p.IsField(x.X, "tcpPacketConn.conns") {
+					if kc, isC := unparen(x.Index).(*ast.CallExpr); isC && p.CalleeName(kc) == "net.Addr.String" {
+						if sel, okS := unparen(kc.Fun).(*ast.SelectorExpr); okS {
+							if kid, isID := unparen(sel.X).(*ast.Ident); isID && p.ObjOf(kid) == addr {
+								return true, ""
+							}
+						}
+					}
+				}
+				return false, "an entry under another key at " + p.Pos(x.Pos())
+			case *ast.Ident:
+				n := 0
+				root := g.Root()
+				for _, h := range append([]*Func{root}, root.Lits...) {
+					for _, d := range p.DefsOf(h, p.ObjOf(x)) {
+						if d.Zero {
+							continue
+						}
+						n++
+						if d.Rhs == nil {
+							return false, "assigned at " + p.Pos(d.Node.Pos())
+						}
+						if ok, why := isEntry(h, d.Rhs, d.Index, depth+1); !ok {
+							return false, why
+						}
+					}
+				}
+				if n == 0 {
+					return false, "a value with no definition in WriteTo"
+				}
+				return true, ""
+			case *ast.CallExpr:
+				if lit, isLit := unparen(x.Fun).(*ast.FuncLit); isLit {
+					lf := p.ByLit[lit]
+					if lf == nil {
+						return false, "a closure that was not indexed"
+					}
+					nRet := 0
+					okAll, why := true, ""
+					walkBody(lf, func(y ast.Node) bool {
+						if rs, isR := y.(*ast.ReturnStmt); isR && idx < len(rs.Results) {
+							nRet++
+							if ok, w := isEntry(lf, rs.Results[idx], 0, depth+1); !ok {
+								okAll, why = false, w
+							}
+						}
+						return true
+					})
+					return okAll && nRet > 0, why
+				}
+			}
+			return false, stripVarLines(p.Canon(e)) + " at " + p.Pos(e.Pos())
+		}
+		if ok, why := isEntry(f, w.Args[0], 0, 0); !ok {
+			bad = "the connection written to can also be " + why + " (not the table entry of the destination address)"
+		}
+		r.Check(bad == "", "tcpPacketConn.WriteTo writes to the connection of the destination address", p.Pos(w.Pos()), "conns[rAddr.String()] only", bad+": data (and STUN) addressed to one peer is framed onto another peer's TCP connection, and the write is reported as successful")
+	}
+}
+
+// checkLookupCreateAtomic (R15.14): wherever the per-ufrag table is looked up and, on a miss, an entry is
+// created, the mux mutex is held from the lookup to the creation without a gap.
+func checkLookupCreateAtomic(p *Prog, r *Report) {
+	n := 0
+	for _, f := range p.AllFuncs {
+		if f.Pkg != p.Ice || f.Body == nil {
+			continue
+		}
+		gets := p.CallsTo(f, false, "ice.TCPMuxDefault.getConn")
+		creates := p.CallsTo(f, false, "ice.TCPMuxDefault.createConn")
+		if len(gets) == 0 || len(creates) == 0 {
+			continue
+		}
+		g := p.CFG(f)
+		after := func(from, to Loc) bool {
+			if from.B == to.B && from.I < to.I {
+				return true
+			}
+			var succ []*Block
+			for _, e := range from.B.Succs {
+				succ = append(succ, e.To)
+			}
+			return g.Reach(succ, nil)[to.B]
+		}
+		var unlocks []Loc
+		for _, b := range g.Blocks {
+			for i, nd := range b.Nodes {
+				if _, isDefer := nd.(*ast.DeferStmt); isDefer {
+					continue
+				}
+				for _, c := range p.NodeCalls(nd) {
+					if p.isMethodOnField(c, "TCPMuxDefault.mu", "Unlock") {
+						unlocks = append(unlocks, Loc{b, i})
+					}
+				}
+			}
+		}
+		for _, c := range creates {
+			n++
+			cl, okC := g.Locate(c)
+			held := p.Locks(f).At(c)["TCPMuxDefault.mu"]
+			gap := ""
+			for _, gc := range gets {
+				gl, okG := g.Locate(gc)
+				if !okC || !okG || !after(gl, cl) {
+					continue
+				}
+				for _, u := range unlocks {
+					if after(gl, u) && after(u, cl) {
+						gap = p.Pos(u.B.Nodes[u.I].Pos())
+					}
+				}
+			}
+			r.Check(held && gap == "", "lookup and creation in "+f.Name+" are one critical section", p.Pos(c.Pos()), "TCPMuxDefault.mu held from getConn to createConn", "the mutex is released between the lookup and the creation (at "+gap+", held at the creation: "+fmt.Sprint(held)+"): two first packets for one ufrag — or a first packet and GetConnByUfrag — can both miss and both create, and the entry created second overwrites the first, whose TCP connections are then orphaned (their first messages lost, replies failing, Close waiting for them)")
+		}
+	}
+	if n < 2 {
+		r.Fail("lookup-or-create sites of the per-ufrag table", "tcp_mux.go", fmt.Sprintf("only %d found (rule instance lost)", n))
 	}
 }
